@@ -25,6 +25,13 @@ BIG_DRAIN_MS = 200001
 
 NUM_TW = ['MUL($, 2)', 'ADD($, 0.5)', 'SUB(10, $)', 'DIV($, 4)', 'DIV(1, $)', 'FLOOR($)', 'MUL($, 0.1)',
           'IF(GT($, 5), 1, 0)', 'ABS($)', '$', 'NOT($)', 'MOD($, 3)', 'IF(GT($, 5), unavailable, $)', 'MUL($, -1.5)']
+# value expressions a port may follow. Their source is a port id that names no port, or a port that stays disabled:
+# evaluating them raises UnknownPortId / DisabledPort, so the port's own evaluations never write anything and every
+# driver call still belongs to a request
+SRC_ABSENT, SRC_DISABLED = 'verif_absent_src', 'verif_disabled_src'
+NUM_EXPR = ['$' + SRC_ABSENT, 'ADD($' + SRC_ABSENT + ', 1)', '$' + SRC_DISABLED, 'ADD($' + SRC_DISABLED + ', 1)',
+            'MUL($' + SRC_DISABLED + ', $)', 'IF(GT($' + SRC_ABSENT + ', 5), 1, 0)']
+BOOL_EXPR = ['$' + SRC_ABSENT, 'NOT($' + SRC_DISABLED + ')', 'AND($' + SRC_DISABLED + ', $' + SRC_ABSENT + ')']
 BOOL_TW = ['NOT($)', '$', 'IF($, 0, 1)', 'MUL($, 2)', 'IF($, unavailable, false)', 'SUB($, 1)', 'SUB(0.5, $)']
 
 
@@ -292,7 +299,8 @@ class C05(Prop):
     N_THOROUGH = 120000
     RULE = ('a case = one port (driver-defined with an instant or a slow driver, or a virtual port created through POST /ports) '
             'with a definition (type, min, max, step, integer, choices incl. bool/number collisions, enabled, '
-            'writable, write transform; a share of degenerate non-well-formed ones) x 4..14 operations: value writes '
+            'writable, write transform, for about a fifth of the writable ports a value expression the port follows — over a '
+            'source that is absent or disabled, so that it never evaluates; a share of degenerate non-well-formed ones) x 4..14 operations: value writes '
             '(grid points, off-grid neighbours, min/max edges +-eps, integer-valued floats, exponent forms, bools vs 0/1, '
             'huge/tiny magnitudes, null/strings/arrays/objects, NaN/Infinity tokens, literals beyond binary64), sequence '
             'writes (valid, one bad element, malformed shapes), bursts of 2-4 overlapping value writes, unknown port ids, '
@@ -312,7 +320,11 @@ class C05(Prop):
                    'finding C05-beyond-binary64',
                    'NaN/Infinity tokens are not JSON values: only model = code and purity of refusals are checked for them',
                    'choices, when declared, are the whole domain; a step without a min, or a step of 0, constrains nothing',
-                   'the port driver\'s write_value succeeds; ports without a value expression; sequence repeat >= 1',
+                   'the port driver\'s write_value succeeds; sequence repeat >= 1',
+                   'a port may follow a value expression (value writes are accepted and delivered all the same, sequence '
+                   'requests are refused with port-with-expression), but only one whose source is an absent or a disabled '
+                   'port: its evaluation raises, so the port\'s own evaluations hand the driver nothing and every driver call '
+                   'belongs to a request',
                    '202 (accepted, not applied right away) and 204 are both "accepted"']
 
     # ---------------------------------------------------------------- life-cycle
@@ -445,6 +457,26 @@ class C05(Prop):
                      ['redefine', 'put', {'type': 'boolean', 'min': None, 'max': None, 'step': None, 'integer': None,
                                           'choices': None, 'enabled': True, 'writable': True, 'tw': 'NOT($)'}],
                      ['value', True, '1'], ['value', True, 'true']]},
+            # a port that follows a value expression: value writes are accepted and delivered all the same (in-domain /
+            # out-of-domain / disabled in the usual order); the sequence endpoint refuses the port, after its other tests
+            {'port': dict(step01, expr='ADD($' + SRC_ABSENT + ', 1)', tw='MUL($, 2)'),
+             'ops': [['value', True, '0.3'], ['value', True, '0.25'], ['seq', True, '{"values": [0.3], "delays": [100], "repeat": 1}'],
+                     ['seq', True, '{"values": [0.25], "delays": [100], "repeat": 1}'], ['disable'], ['value', True, '0.3'],
+                     ['seq', True, '{"values": [0.3], "delays": [100], "repeat": 1}'], ['enable'], ['value', True, '10'],
+                     ['burst', [[True, '1'], [True, '2'], [True, '10.1']]], ['advance', 1001]]},
+            {'port': dict(intp, expr='$' + SRC_DISABLED), 'latency': 50,
+             'ops': [['value', True, '5'], ['value', True, '5.0'], ['value', True, '11'],
+                     ['burst', [[True, '1'], [True, '2']]], ['seq', True, '{"values": [1, 2], "delays": [0, 0], "repeat": 1}']]},
+            {'port': dict(free, min='0', max='100', expr='$' + SRC_DISABLED), 'virtual': True,
+             'ops': [['value', True, '30'], ['seq', True, '{"values": [1], "delays": [100], "repeat": 1}'],
+                     ['redefine', 'put', dict(free, min='0', max='10')], ['value', True, '7'],
+                     ['seq', True, '{"values": [1, 2], "delays": [100, 100], "repeat": 1}'], ['advance', 301],
+                     ['redefine', 'delete-post', dict(free, min='0', max='10', expr='IF(GT($' + SRC_ABSENT + ', 5), 1, 0)')],
+                     ['value', True, '7'], ['value', True, '70'], ['seq', True, '{"values": [1], "delays": [100], "repeat": 1}']]},
+            {'port': {'type': 'boolean', 'min': None, 'max': None, 'step': None, 'integer': None, 'choices': None,
+                      'enabled': True, 'writable': True, 'tw': 'NOT($)', 'expr': 'NOT($' + SRC_DISABLED + ')'},
+             'ops': [['value', True, 'true'], ['value', True, '1'], ['value', True, 'false'],
+                     ['seq', True, '{"values": [true, false], "delays": [100, 100], "repeat": 1}']]},
             # NaN / Infinity tokens
             {'port': dict(free, min='0'), 'ops': [['value', True, 'NaN'], ['value', True, 'Infinity'],
                                                    ['value', True, '-Infinity']]},
@@ -518,6 +550,8 @@ class C05(Prop):
                     pd['min'], pd['step'] = '0', rng.choice(['2', '1'])
                 else:
                     pd['choices'] = ['true', '1', '0']
+            if pd['writable'] and rng.random() < 0.22:
+                pd['expr'] = rng.choice(BOOL_EXPR)
             return pd
         steps = ['0.1', '0.01', '0.25', '3', '1', '0.5', '5', '0.3', '0.001', '2.5', '0.2', '0.05', '1e-7', '0.7', '100',
                  '0', '-0.5', '0.125', '1e3']
@@ -557,6 +591,8 @@ class C05(Prop):
         for k in ('min', 'max', 'step'):
             if pd[k] is not None and rng.random() < 0.15:
                 pd[k] = self._restyle(rng, pd[k])
+        if pd['writable'] and rng.random() < 0.22:       # the port follows a value expression (writable ports only)
+            pd['expr'] = rng.choice(NUM_EXPR)
         return pd
 
     def _gen_value(self, rng, pd, numeric_only=False):
@@ -733,6 +769,8 @@ class C05(Prop):
                     npd = dict(self._gen_port(rng), enabled=True)
             else:
                 npd['tw'] = rng.choice(BOOL_TW + [None])
+            if rng.random() < 0.2:
+                npd['expr'] = None if npd.get('expr') else rng.choice(NUM_EXPR if npd['type'] == 'number' else BOOL_EXPR)
             return self._virtualize(rng, npd)
         k = rng.choice(['max', 'max', 'min', 'range', 'step', 'integer', 'choices', 'choices', 'type', 'tw', 'nochoices'])
         lo = F(pd['min']) if pd['min'] is not None else F(0)
@@ -763,6 +801,8 @@ class C05(Prop):
                    'enabled': True, 'writable': True, 'tw': rng.choice([None, None, 'NOT($)'])}
         else:
             npd['tw'] = rng.choice(NUM_TW + [None])
+        if rng.random() < 0.2:
+            npd['expr'] = None if npd.get('expr') else rng.choice(NUM_EXPR if npd['type'] == 'number' else BOOL_EXPR)
         return self._virtualize(rng, npd)
 
     def gen(self, rng, tier):
@@ -833,7 +873,7 @@ class C05(Prop):
                 for k in range(len(op[1])):
                     yield dict(case, ops=ops[:i] + [['burst', op[1][:k] + op[1][k + 1:]]] + ops[i + 1:])
         pd = case['port']
-        for k, v in (('tw', None), ('choices', None), ('integer', None), ('max', None), ('step', None), ('min', None),
+        for k, v in (('expr', None), ('tw', None), ('choices', None), ('integer', None), ('max', None), ('step', None), ('min', None),
                      ('enabled', True), ('writable', True)):
             if pd.get(k) != v:
                 yield dict(case, port=dict(pd, **{k: v}))
@@ -910,6 +950,11 @@ class C05(Prop):
         except Exception as e:  # the web layer answers 500 for any other exception
             return f'err:500:exception:{type(e).__name__}'
 
+    @staticmethod
+    def _has_expr(pd):
+        """The port follows a value expression (the attribute only exists on writable ports)."""
+        return bool(pd.get('expr')) and bool(pd.get('writable', True))
+
     async def _prepare(self, pid, pd, virtual, parsed_ops, start):
         """Bring the (new) port to its initial state: write transform, enabled flag; compute the outcomes of the write
         transform (real expression evaluator) for every value requested while this definition is in force."""
@@ -924,6 +969,21 @@ class C05(Prop):
             else:
                 await port.set_attr('transform_write', pd['tw'])
             expr = self.core_expressions.parse(pid, pd['tw'], role=self.core_expressions.ROLE_TRANSFORM_WRITE)
+        if self._has_expr(pd):
+            if self.core_ports.get(SRC_DISABLED) is None:      # the source that stays disabled (one per worker process)
+                await self.core_ports.load([{
+                    'driver': self.port_cls, 'id_': SRC_DISABLED, 'type_': 'number', 'min_': None, 'max_': None,
+                    'integer': None, 'step': None, 'choices': None, 'writable': True}])
+            if self.core_ports.get(SRC_DISABLED).is_enabled() or self.core_ports.get(SRC_ABSENT) is not None:
+                raise RuntimeError('the expression sources are not what the harness assumes')
+            if virtual:
+                r = await self._api(self.ports_funcs.patch_port, pid, {'expression': pd['expr']})
+                if r != 'ok':
+                    raise RuntimeError(f'cannot set expression: {r}')
+            else:
+                await port.set_attr('expression', pd['expr'])
+            if not await port.get_attr('expression'):
+                raise RuntimeError('the expression was not installed')
         touts = {}
         for op, body in parsed_ops[start:]:
             if op[0] == 'redefine':
@@ -1070,7 +1130,7 @@ class C05(Prop):
             cs = ','.join(('b1' if c else 'b0') if isinstance(c, bool) else 'n' + frac_tok(exact(c)) for c in ch)
         return (f'{word} {"b" if pd["type"] == "boolean" else "n"} {rt(parsed["min"])} {rt(parsed["max"])} '
                 f'{rt(parsed["step"])} {1 if pd["integer"] else 0} {cs} {1 if pd["enabled"] else 0} '
-                f'{1 if pd["writable"] else 0} {1 if pd["tw"] else 0}')
+                f'{1 if pd["writable"] else 0} {1 if pd["tw"] else 0} {1 if self._has_expr(pd) else 0}')
 
     def _model(self, case, parsed_ops, real, driver):
         pd = case['port']
@@ -1233,7 +1293,7 @@ class C05(Prop):
             legit = []
             tags.add(('port:' if first else 'redefined:') + pd['type'] + (':int' if pd['integer'] else '') +
                      (':choices' if pd['choices'] is not None else '') + (':step' if pd['step'] is not None else '') +
-                     (':tw' if pd['tw'] else ''))
+                     (':tw' if pd['tw'] else '') + (':expr' if self._has_expr(pd) else ''))
             if not wf:
                 tags.add('port:degenerate')
 
@@ -1282,6 +1342,8 @@ class C05(Prop):
             rc = self._canon_real(['value'], res)
             accepted = rc == 'ok'
             tags.add(f'value:{rc}')
+            if self._has_expr(pd):
+                tags.add(f'value-on-port-with-expression:{rc}')
             n_ok += accepted
             n_rej += not accepted
             where = ''
@@ -1307,7 +1369,9 @@ class C05(Prop):
                     f = Failure('property', f'op {idx}: accepted although the write transform fails on {text}',
                                 real=real, where=where)
             elif accepted != should:
-                why = ('in-domain value refused' if should else 'accepted although ' +
+                why = ('in-domain value refused' + (' (the port follows the expression ' + repr(pd['expr']) + ': that is no '
+                                                    'ground for refusing a value write)' if self._has_expr(pd) else '')
+                       if should else 'accepted although ' +
                        ('the port does not exist' if not known else 'the port is disabled' if not enabled else
                         'the port is read-only' if not pd['writable'] else 'the value is outside the domain') +
                        (' of the definition in force' if prev is not None else ''))
@@ -1432,12 +1496,15 @@ class C05(Prop):
                 if None in ds:
                     tags.add('seq:not-judged')
                 else:
-                    should = bool(op[1]) and enabled and pd['writable'] and shape_ok and all(ds)
+                    # (a port that follows a value expression takes no sequence: the sequence endpoint's own rule)
+                    should = bool(op[1]) and enabled and pd['writable'] and shape_ok and all(ds) and not self._has_expr(pd)
+                    if self._has_expr(pd):
+                        tags.add(f'seq-on-port-with-expression:{rc}')
                     if accepted != should and fail is None:
                         why = ('every value in the domain, yet refused' if should else 'accepted although ' +
                                ('the port does not exist' if not op[1] else 'the body is malformed' if not shape_ok else
                                 'a value is outside the domain' if not all(ds) else 'the port is disabled' if not enabled
-                                else 'the port is read-only'))
+                                else 'the port is read-only' if not pd['writable'] else 'the port follows an expression'))
                         fail = Failure('property', f'op {idx}: sequence {op[2][:120]} -> {ob["res"]}: {why}', real=real)
         # the final drain
         for c in (real[-1]['calls'] if wf else []):
